@@ -108,6 +108,7 @@ impl<K: El, V: El> Mon<K, V> {
                         match r {
                             Ok((a, b)) => out.act.extend([1, a, b]),
                             Err(p) => {
+                                rethrow_fuse(&p);
                                 // the one documented panic
                                 if slot.is_some() {
                                     viol!("C01", "indexing the present key {k} panicked: {p}");
@@ -876,6 +877,7 @@ impl<K: El, V: El> Mon<K, V> {
                         }
                     }
                     Err(p) => {
+                        rethrow_fuse(&p);
                         out.act.push(2);
                         if !(p.contains("capacity overflow") || p.contains("Hash table capacity overflow")) || !reserve_may_fail(st0, n) {
                             viol!("C10", "reserve({n}) with len {len0} panicked: {p}");
@@ -912,7 +914,10 @@ impl<K: El, V: El> Mon<K, V> {
                     self.stats.alloc_fail_injected += 1;
                 }
                 match r {
-                    Err(p) => viol!("C10", "try_reserve({n}) with len {len0} panicked: {p}"),
+                    Err(p) => {
+                        rethrow_fuse(&p);
+                        viol!("C10", "try_reserve({n}) with len {len0} panicked: {p}")
+                    }
                     Ok(Ok(())) => {
                         out.act.push(0);
                         if overflow {
@@ -995,7 +1000,10 @@ impl<K: El, V: El> Mon<K, V> {
             let map = &mut self.map;
             let res = catch(|| map.insert(kk, v));
             match res {
-                Err(p) => viol!("C04", "probe insertion {} of {} panicked: {p}", i + 1, n),
+                Err(p) => {
+                    rethrow_fuse(&p);
+                    viol!("C04", "probe insertion {} of {} panicked: {p}", i + 1, n)
+                }
                 Ok(Some(_)) => viol!("C04", "probe key {kv} was reported as already present"),
                 Ok(None) => {}
             }
@@ -1037,6 +1045,13 @@ pub fn reserve_must_fail(st0: &State, n: usize) -> bool {
 pub fn reserve_may_fail(st0: &State, n: usize) -> bool {
     let len = st0.main.len + st0.old.as_ref().map_or(0, |o| o.table.len);
     len.saturating_add(n) >= (1usize << 40)
+}
+
+/// An injected fault caught by an inner catch must keep unwinding to the fault driver.
+pub fn rethrow_fuse(p: &str) {
+    if p.contains(FUSE_MSG) {
+        panic!("{}", FUSE_MSG);
+    }
 }
 
 pub fn check_len(what: &str, len: usize, hint: (usize, Option<usize>), want: usize) -> Res<()> {
